@@ -537,11 +537,27 @@ theorem refs_approx : ∀ (refs : List Reference) (i : Nat),
       beq_iff_eq, refs_approx rs (i + 1), and_true, hn]
     simp [toRRef]
 
-theorem feats_approx : ∀ fs : List Feature,
+open PolyVerif.Spec.GbStrict (wfFeatureRT cacheConsistent absFeat) in
+theorem feats_approx : ∀ fs : List Feature, fs.all wfFeatureRT = true →
     listApprox featApprox fs ((fs.map toRFeature).map PolyVerif.GbLayout.toFeature) = true
-  | [] => rfl
-  | f :: fs => by
-    simp only [List.map_cons, listApprox, Bool.and_eq_true, feats_approx fs, and_true]
-    simp [featApprox, toRFeature, PolyVerif.GbLayout.toFeature]
+  | [], _ => rfl
+  | f :: fs, h => by
+    simp only [List.all_cons, Bool.and_eq_true] at h
+    have hloc : locStructOk f (PolyVerif.GbLayout.toFeature (toRFeature f)) = true := by
+      unfold locStructOk
+      by_cases hc : f.gbkLocationString = []
+      · simp [hc]
+      · have hw := h.1
+        simp only [wfFeatureRT, Bool.and_eq_true, bne_iff_ne, ne_eq, hc, not_false_eq_true, if_true] at hw
+        have hcc := hw.2
+        unfold cacheConsistent at hcc
+        have htext : (PolyVerif.GbLayout.toFeature (toRFeature f)).gbkLoc = f.gbkLocationString := by
+          simp [PolyVerif.GbLayout.toFeature, toRFeature, absFeat, hc]
+        rw [htext]
+        simp only [Bool.or_eq_true, beq_iff_eq, hc, false_or]
+        exact hcc
+    simp only [List.map_cons, listApprox, Bool.and_eq_true, feats_approx fs h.2, and_true]
+    simp only [featApprox, Bool.and_eq_true, hloc, and_true]
+    simp [toRFeature, PolyVerif.GbLayout.toFeature]
 
 end PolyVerif.Lemmas.GbRoundTrip
